@@ -86,6 +86,8 @@ highlight(struct vbi_search *s, cache_page *vtp,
 	s->start_subno = vtp->subno;
 	s->row[0] = LAST_ROW + 1;
 	s->col[0] = 0;
+	s->row[1] = FIRST_ROW;
+	s->col[1] = 0;
 
 	for (i = FIRST_ROW; i < LAST_ROW; i++) {
 		vbi_char *acp = &pg->text[i * pg->columns];
@@ -310,7 +312,7 @@ search_page_rev(cache_page *vtp, vbi_bool wrapped, void *p)
 		acp = &s->pg.text[i * s->pg.columns];
 
 		for (j = 0; j < 40; acp++, j++) {
-			if (i == row && j >= s->col[1])
+			if (i > row || (i == row && j >= s->col[1]))
 				goto break2;
 
 			if (acp->size == VBI_DOUBLE_WIDTH
